@@ -538,7 +538,9 @@ func TestVerifC17(t *testing.T) {
 	t.Run("served", func(t *testing.T) {
 		vfDriveSub(t, "served", vfProp[vfCaseC17Served]{ID: "C17", Gen: vfGenC17Served, Run: vfRunC17Served})
 	})
-	t.Run("set", func(t *testing.T) { vfDriveSub(t, "set", vfProp[vfCaseC17Set]{ID: "C17", Gen: vfGenC17Set, Run: vfRunC17Set}) })
+	t.Run("set", func(t *testing.T) {
+		vfDriveSub(t, "set", vfProp[vfCaseC17Set]{ID: "C17", Gen: vfGenC17Set, Run: vfRunC17Set})
+	})
 	t.Run("setgrid", func(t *testing.T) {
 		// every subset x every route, fixed values
 		vfEnumerate(t, "set", vfProp[vfCaseC17Set]{ID: "C17", Run: vfRunC17Set}, func(yield func(vfCaseC17Set) bool) {
